@@ -430,6 +430,64 @@ def check(fx, rep, tier):
                 turned = any(a.get("k") == "MethodCall" and a["method"] in ("ok_or", "ok_or_else") and key == "recv" for a, key in cps[-2:])
                 rep.oblige(turned, "R17.6", f"stack-underflow:{b['name']}", F.loc(c["span"]), f"`Stack::{b['name']}` does not turn an empty stack into an error: a stack underflow is never raised")
     rep.floor("R17.6", n_src, 2, "operations of the stack that can overflow / underflow")
+    # no opcode swallows an error it was handed: an arm that matches execution-error kinds and answers Ok(()) records the error
+    # (at least in strict mode) first
+    n_sw = 0
+    for ob in vm.opcode_execs:
+        rootO = ob["hir"]["value"]
+        for m, mps in F.exprs(rootO, "Match"):
+            for a in m["arms"]:
+                pv = F.pat_variants(a["pat"])
+                if not pv or not all(x == EXEC_ERR for x, _ in pv):
+                    continue
+                n_sw += 1
+                body = a["body"]
+                answers_ok = any(x.get("k") == "Call" and (F.path_def(x["f"]) or "").endswith("::Ok") and not x.get("exp") for x, _ in F.walk(body))
+                records = any(any(y is x["node"] for y, _ in F.walk(body)) for x in site_info)
+                # `K => Ok(payload)` feeding a later `?`-free recording (the conditional jump's kind-selecting match) counts
+                feeds = any(x.get("k") == "Call" and (F.path_def(x["f"]) or "").endswith("::Ok") and x["args"] and F.local_of(F.strip(x["args"][0])) is not None and F.strip(x["args"][0]).get("k") == "Path" and (F.strip(x["args"][0]).get("ty") or "").find("Located") >= 0 for x, _ in F.walk(body))
+                if answers_ok and not records and not feeds:
+                    kinds = sorted(v for _, v in pv)
+                    rep.oblige(
+                        False,
+                        "R17.3",
+                        f"swallowed:{F.strip_generics(ob['def'])}:{'+'.join(kinds)}",
+                        F.loc(a["span"]),
+                        f"`{ob['def']}` matches the error kind(s) {kinds} and answers Ok(()) without recording the error: in strict mode the run succeeds although that error was raised",
+                        sample={"rule": "R17.3", "opcode": ob["def"], "kinds": kinds},
+                    )
+    rep.floor("R17.3", n_sw, 2, "arms of opcode implementations that match execution-error kinds")
+    # what has been recorded stays recorded: nothing in the error container removes payloads
+    ERRS = "error::container::Errors"
+    DROPPERS = {"dedup", "dedup_by", "dedup_by_key", "retain", "retain_mut", "truncate", "pop", "remove", "swap_remove", "clear", "drain", "split_off", "take"}
+    n_cont = 0
+    for b in fx.fn_bodies():
+        if not (b.get("impl_self") or "").startswith(ERRS) or not b.get("hir"):
+            continue
+        n_cont += 1
+        for c, cps in F.calls(b["hir"]["value"]):
+            if c.get("k") == "MethodCall" and c["method"] in DROPPERS and "std::vec::Vec<" in (c.get("recv_ty") or ""):
+                recv = T.term(c["recv"], T.Env())
+                if recv[0] == "field" and recv[1][0] == "local" and recv[1][2] == "self":
+                    rep.oblige(False, "R17.6", f"container-drops:{b['name']}:{c['method']}", F.loc(c["span"]), f"`Errors::{b['name']}` removes recorded errors with `{c['method']}`: an error that was raised and recorded is no longer listed in the result")
+    rep.floor("R17.6", n_cont, 5, "methods of the error container scanned for removals")
+    # gas exhaustion is recorded whenever the comparison holds: the test that guards the recording is the bare comparison of the
+    # thread's gas with the limit (not conjoined with "the thread still has something to execute")
+    advb = vm.advance
+    for site in [x for x in site_info if x["fn"] == advb["def"] and x["built"] and "GasLimitExceeded" in x["kinds"]]:
+        n6, ps6 = site["node"], site["ps"]
+        mut6 = T.mutated_locals(advb["hir"]["value"])
+        conds = [T.term(a["cond"], T.env_at(ps6, a, mut6), mut6) for a, key in ps6 if a.get("k") == "If" and key == "then"]
+        inner = conds[-1] if conds else None
+        bare = inner is not None and inner[0] == "bin" and inner[1] in ("Gt", "Ge", "Lt", "Le") and any(st[0] == "field" and st[2] == "gas_limit" for st in T.subterms(inner))
+        rep.oblige(
+            bare,
+            "R17.6",
+            "gas-error-iff-over-limit",
+            F.loc(n6["span"]),
+            f"the recording of GasLimitExceeded is guarded by `{T.short(inner)[:90] if inner else '?'}` rather than by the bare comparison of the thread's gas with the limit: a path that crosses the limit under the extra condition is retired without the error being raised",
+            sample={"rule": "R17.6", "guard": T.short(inner)[:80] if inner else None},
+        )
     # gas exhaustion: the counter is charged per instruction, inherited on fork and written nowhere else (C03 R03.4)
     from .. import core
 
